@@ -212,7 +212,9 @@ static std::string first_repo_frame(const std::string& t, size_t from)
     if (frame) {
       in_stack = true;
       size_t in = ln.find(" in ");
-      size_t rp = ln.find(" /repo/");
+      // (VERIF_REPO: where the sources were compiled from when not /repo, e.g. a snapshot used by a background run)
+      static const std::string repo_prefix = std::string(" ") + (getenv("VERIF_REPO") ? getenv("VERIF_REPO") : "/repo") + "/";
+      size_t rp = ln.find(repo_prefix);
       if (in != std::string::npos && rp != std::string::npos && rp > in)
         return strip_func(ln.substr(in + 4, rp - in - 4));
       // a frame the symbolizer gave no source line for: Gama's namespaces identify it
